@@ -386,6 +386,8 @@ def c18(ctx):
         jobs.append(lambda k=k, n=n, prof=prof: ctx.mon("rust/proc%d-%dthreads" % (k, n), "asm", prof,
                                                         ["c18", "--nthreads", str(n), "--proc", str(k), "--per-thread", "6" if n <= 16 else "3"]))
     ctx.parallel(jobs, workers=4)
+    # Rust: independent hashers driven from tasks of one Rayon pool (deadlock certificate from /proc)
+    ctx.mon("rust/pool-file-tasks", "asm", "release", ["c18", "--pool-files", "1"], timeout=2400)
     # C: fresh processes of the threaded executor against libblake3.so (+ writable-segment diff)
     cmt = cbuild.build_cmt("native")
     # each cmt invocation forks ROUNDS fresh processes (detection cache UNDEFINED in each), threads
